@@ -457,6 +457,8 @@ func verifLemmaMaxBodyTight(c *channelInstance, m *Message, chunkSize int, chunk
 //@   props C13 C20 C06
 //@   bytes
 //@   use mergeChunks@safe
+//@   use github.com/gopcua/opcua/ua.DecodeService@limited
+//@   requires ua.decodeLimit() == int(s.c.ack.MaxMessageSize)
 //@   requires storedOK(s) && s.c != nil && uacp.connInv(s.c) && s.cfg != nil && chunkTableOK(s) && ctx != nil
 //@   requires s.openingInstance != nil ==> instOK(s.openingInstance)
 //@   assigns *
@@ -468,6 +470,7 @@ func verifLemmaMaxBodyTight(c *channelInstance, m *Message, chunkSize int, chunk
 //@   requires [limit-representable] s.c.ack.MaxChunkCount < 4294967295
 //@   requires [C13:backlog-bounded] forall k uint32 :: { in(k, s.chunks) } in(k, s.chunks) ==> len(s.chunks[k]) <= int(s.c.ack.MaxChunkCount)
 //@   ensures [C13:backlog-bounded] forall k uint32 :: { in(k, s.chunks) } in(k, s.chunks) ==> len(s.chunks[k]) <= int(s.c.ack.MaxChunkCount)
+//@   loop 0 invariant ua.decodeLimit() == int(s.c.ack.MaxMessageSize)
 //@   loop 0 invariant [C13:backlog-bounded] s.c.ack.MaxChunkCount < 4294967295 &&
 //@           (forall k uint32 :: { in(k, s.chunks) } in(k, s.chunks) ==> len(s.chunks[k]) <= int(s.c.ack.MaxChunkCount))
 //@   requires len(s.chunks) <= 1
